@@ -22,12 +22,14 @@ type sim struct{}
 func init() { core.Register(sim{}) }
 
 func (sim) Name() string        { return "walletsim" }
-func (sim) Props() []string     { return []string{"C09", "C15"} }
+func (sim) Props() []string     { return []string{"C09", "C15", "C20"} }
 func (sim) Level(string) string { return "exploration" }
 func (sim) Rule(prop string) string {
 	switch prop {
 	case "C09":
 		return "C09: a case is (parallel sections of address-issuing calls by 2-4 user tasks on the same and on different scope/account/branch, scheduling strategy + seed, target-site bias on the commit->callback window); every mutex acquisition, goroutine start and database-transaction boundary of wallet, waddrmgr, bdb and bbolt is a scheduler decision."
+	case "C20":
+		return "C20: a case is (wallet history of receipts, sends incl. chained unconfirmed ones, built-then-published transactions, leases, blocks, restarts; at every broadcast — initial and each re-broadcast after a restart — a backend answer class: accepted, already in mempool, already confirmed, rejected (fee / generic / conflict), transport error, subscription failure)."
 	case "C15":
 		return "C15: a case is (chain evolution: extensions, reorgs of depth 1..D, stale/repeated notifications, delivery lag, wallet stop/restart phases while the node moves, backend call failures; wallet transactions placed in the affected blocks)."
 	}
@@ -52,6 +54,10 @@ func (sim) Explain(prop string, st map[string]int64) string {
 	switch prop {
 	case "C09":
 		probes = []string{"probe.parked-between-commit-and-callback", "probe.same-branch-concurrent", "probe.blocked-on-newAddrMtx", "probe.dryrun-concurrent", "probe.porcupine-checked"}
+	case "C20":
+		probes = []string{"probe.rejection-with-other-unmined", "probe.chained-unconfirmed-send", "probe.already-in-mempool", "probe.already-confirmed",
+			"probe.rejection-of-recorded-tx", "probe.resend-with-unmined", "probe.resend-chain", "fault.backend-answer.transport", "fault.backend-answer.reject-fee",
+			"fault.backend-answer.reject-generic", "fault.backend-answer.reject-conflict", "fault.backend-answer.notify-received-fails", "probe.resend-rejected"}
 	case "C15":
 		probes = []string{"probe.reorg-depth>1", "probe.reorg-with-wallet-tx", "probe.restart-tip-not-on-chain", "probe.stale-disconnect", "probe.reorg-equal-height", "probe.sync-after-backend-failure", "probe.node-moved-while-stopped"}
 	}
@@ -81,6 +87,8 @@ func (sim) Generate(prop, tier string, seed uint64) *core.Plan {
 		genC09(r, p)
 	case "C15":
 		genC15(r, p)
+	case "C20":
+		genC20(r, p)
 	}
 	return p
 }
@@ -558,6 +566,9 @@ func (rs *runState) exec(task, step int, op core.Op) {
 	case "stop":
 		if x.running {
 			x.harvestFaults()
+			if sn, err := x.snap(); err == nil {
+				x.unminedAtStart = sn.unmined
+			}
 			x.stop()
 			env.Count("op.stop")
 			env.Eff()
@@ -580,6 +591,19 @@ func (rs *runState) exec(task, step int, op core.Op) {
 			if !x.syncPoint(fmt.Sprintf("restart%d", step)) {
 				return
 			}
+			if x.prop == "C20" {
+				x.resendSyncedHeight = x.node.Tip().Height
+				for _, sr := range x.client.Sends {
+					if sr.Answer == "reject" || sr.Answer == "transport" {
+						env.Count("probe.resend-rejected")
+					}
+				}
+				x.checkResend(fmt.Sprintf("restart%d", step))
+				x.client.SendAnswers = nil
+				if x.violated {
+					return
+				}
+			}
 			if err := x.w.Unlock(x.privPass, nil); err != nil {
 				x.fail("restart-failed", "unlock after restart: %v", err)
 			}
@@ -589,6 +613,29 @@ func (rs *runState) exec(task, step int, op core.Op) {
 			return
 		}
 		rs.send(task, step, op)
+	case "sendx":
+		if x.running {
+			rs.sendx(step, op)
+		}
+	case "build":
+		if x.running {
+			rs.build(step, op)
+		}
+	case "publish":
+		if x.running {
+			rs.publish(step, op)
+		}
+	case "lease":
+		if x.running {
+			rs.lease(step, op)
+		}
+	case "resend-answers":
+		if !x.running {
+			x.pendingResend = nil
+			for _, a := range op.A {
+				x.pendingResend = append(x.pendingResend, answerClasses[int(uint64(a)%uint64(len(answerClasses)-1))])
+			}
+		}
 	case "join":
 		// separator between parallel sections
 	case "clock":
@@ -659,7 +706,7 @@ func (rs *runState) send(task, step int, op core.Op) {
 	var err error
 	dry := op.K == "dryrun"
 	if dry {
-		var a interface{ }
+		var a interface{}
 		_ = a
 		at, e := x.w.CreateSimpleTx(scope, 0, outs, minconf, fee, strat, true)
 		err = e
